@@ -93,11 +93,21 @@ def run_model(backend, ins):
     if r.returncode != 0:
         raise RuntimeError(f"driver failed rc={r.returncode}: {r.stderr[-2000:]}")
     outs = {}
+    global last_flags
+    last_flags = {}
     for line in r.stdout.split("\n"):
         if line.startswith("MOD "):
             _, i, rest = (line.split(" ", 2) + [""])[:3]
             outs[i] = rest
+        elif line.startswith("FLAG "):
+            # properties of the parsed input the model evaluates next to the outcome (`COLLISION`: names collide, the zone
+            # outside which C16_derive_panics_only_at_todo_without_collision leaves one panic site)
+            _, i, rest = (line.split(" ", 2) + [""])[:3]
+            last_flags.setdefault(i, set()).add(rest.strip())
     return outs
+
+
+last_flags = {}
 
 
 def unesc(s):
@@ -204,7 +214,8 @@ def compare(cases, backend="s1"):
     """Run both sides. Returns dict with per-id results and a list of disagreements."""
     ins, outs, nondet = run_harness(backend, cases)
     mod = run_model(backend, ins)
-    res = {"n": len(cases), "agree": 0, "unsupported": 0, "skipped": 0, "disagree": [], "kinds": {}, "outs": outs, "mod": mod, "ins": ins}
+    res = {"n": len(cases), "agree": 0, "unsupported": 0, "skipped": 0, "disagree": [], "kinds": {}, "outs": outs, "mod": mod, "ins": ins,
+           "flags": dict(last_flags)}
     src = dict(cases)
     for i, _ in cases:
         ci = canon_impl(outs.get(i, "?"))
